@@ -75,6 +75,117 @@ def c17_1(ck, prog):
                          {'_dbus_pending_call_start_completion_unlocked', '_dbus_pending_call_new_unlocked'})
 
 
+WAITS = {'_dbus_connection_do_iteration_unlocked'}
+COMPLETED_TESTS = {'dbus_pending_call_get_completed', '_dbus_pending_call_get_completed_unlocked'}
+
+
+def c17_1b(ck, prog):
+    r = ck.rule('C17.1b', 'a call is handed to the completion funnel only when it is known not to be completed '
+                'yet: it was just found in the reply table (which holds only uncompleted calls), or a completed '
+                'test on it came out false earlier on the path; the obligation moves to the callers of helpers '
+                'that complete their argument without testing', 'DOM',
+                breaks='a late or duplicate reply completes (and notifies) an already completed call a second '
+                       'time', floor=4)
+    funnel = {'complete_pending_call_and_unlock': 1}      # callee -> index of the pending-call argument
+    files = {CONN, PEND}
+    fns = [f for f in lib.prod_funcs(prog, files)]
+    verdict = {}
+    changed = True
+    rounds = 0
+    while changed and rounds < 6:
+        changed = False
+        rounds += 1
+        verdict = {}
+        for fn in fns:
+            if fn.name in funnel and fn.name != 'complete_pending_call_and_unlock':
+                pass
+            sites = [(b, i, c) for b, i, c in fn.calls() if c.get('callee') in funnel
+                     and len(c['args']) > funnel[c['callee']]]
+            if not sites or fn.name == 'complete_pending_call_and_unlock':
+                continue
+            params = {p['id']: (k, p['name']) for k, p in enumerate(fn.params)}
+            # where does the argument come from?
+            for b, i, c in sites:
+                a = c['args'][funnel[c['callee']]]
+                key = '%s:%s@%s' % (fn.name, c['callee'], estr(a))
+                if not is_ref(a):
+                    verdict[key] = ('unknown', fn, c, None)
+                    continue
+                if a.get('id') in params:
+                    verdict.setdefault(key, ('param', fn, c, a))
+                else:
+                    defs = [rhs for bb, ii, ev in fn.events() for l, h, rhs in written_lvalues(ev)
+                            if is_ref(l) and l.get('id') == a.get('id') and rhs is not None and not is_int(rhs, 0)]
+                    if defs and all(is_call(d, '_dbus_hash_table_lookup_int') and
+                                    is_member(d['args'][0], 'pending_replies', 'DBusConnection') for d in defs):
+                        verdict[key] = ('table', fn, c, a)
+                    else:
+                        verdict[key] = ('unknown', fn, c, a)
+        # path check for parameter-sourced sites
+        for key, (kind, fn, c, a) in list(verdict.items()):
+            if kind != 'param':
+                continue
+            vid = a['id']
+            bad = []
+
+            def on_event(user, ev, ctx, vid=vid, bad=bad):
+                if ev['ev'] == 'call':
+                    cc = ev['e']
+                    if cc.get('callee') in COMPLETED_TESTS and cc['args'] and is_ref(cc['args'][0]) \
+                            and cc['args'][0].get('id') == vid:
+                        return user if user == 'checked' else ('pending', cc['id'])
+                    if cc.get('callee') in WAITS:
+                        # the blocking wait: another thread's dispatch may complete the call meanwhile
+                        return 'unchecked'
+                    if cc.get('callee') in funnel and len(cc['args']) > funnel[cc['callee']] and \
+                            is_ref(cc['args'][funnel[cc['callee']]]) and cc['args'][funnel[cc['callee']]].get('id') == vid:
+                        st = user
+                        if isinstance(st, tuple):
+                            st = 'checked' if ctx.result_known(st[1]) is False else 'unchecked'
+                        if st != 'checked':
+                            ctx.report('%s(%s) is reachable without a completed test on %s having come out false'
+                                       % (cc['callee'], estr(cc['args'][funnel[cc['callee']]]), a['name']), cc['line'],
+                                       key=(cc['callee'], cc['line']))
+                if isinstance(user, tuple):
+                    k = ctx.result_known(user[1])
+                    if k is False:
+                        return 'checked'
+                    if k is True:
+                        return 'unchecked'
+                return user
+            ex = Explorer(fn, init='unchecked', on_event=on_event, calls=COMPLETED_TESTS | WAITS, track='auto',
+                          cap=300000).run()
+            mine = {k: rep for k, rep in ex.reports.items() if k[1] == c['line']}
+            verdict[key] = ('guarded', fn, c, a) if not mine else ('unguarded', fn, c, a, mine)
+        for key, v in verdict.items():
+            if v[0] == 'unguarded':
+                fn, a = v[1], v[3]
+                idx = [k for k, p in enumerate(fn.params) if p['id'] == a['id']][0]
+                if fn.name not in funnel:
+                    funnel[fn.name] = idx
+                    changed = True
+    for key, v in sorted(verdict.items()):
+        kind, fn, c = v[0], v[1], v[2]
+        if kind in ('table', 'guarded'):
+            r.ok(key, {'site': '%s:%d' % (fn.file, c['line']), 'why': kind})
+        elif kind == 'unknown':
+            r.violation(key, fn.name, fn.file, c['line'],
+                        '%s completes %s, whose origin is neither the reply table nor a tested parameter' % (
+                            fn.name, estr(c['args'][funnel[c['callee']]])))
+        else:
+            callers = [prog.funcs[k] for k in prog.callers(fn.key) if prog.is_production(prog.funcs[k])]
+            if fn.name.startswith('dbus_') or not callers:
+                rep = list(v[4].values())[0]
+                r.violation(key, fn.name, fn.file, c['line'],
+                            'entry point %s: %s' % (fn.name, rep['reason']), rep['path'])
+            else:
+                r.ok(key, {'site': '%s:%d' % (fn.file, c['line']),
+                           'why': 'helper completes its argument untested; obligation checked at its callers %s'
+                                  % sorted(f.name for f in callers)})
+    r.note('helpers that complete their argument untested: %s' % sorted(k for k in funnel
+                                                                       if k != 'complete_pending_call_and_unlock'))
+
+
 def lock_event(c):
     cal = c.get('callee') or ''
     if cal == '_dbus_connection_lock':
@@ -286,6 +397,7 @@ def run(ck):
                       '(schedules); lock state of unsuffixed static helpers')
     for v, prog in ck.programs(thorough_variants=('B',)):
         c17_1(ck, prog)
+        c17_1b(ck, prog)
         c17_2(ck, prog)
         c17_3(ck, prog)
         c17_4(ck, prog)
